@@ -304,6 +304,89 @@ fn subscribe_race_body() -> vsched::Body {
     })
 }
 
+/// Two subscribers stop between the same two publications (found dead in the same fan-out pass), with a live
+/// subscriber before them and (optionally) one behind them; publications follow, and a late subscriber arrives.
+/// The survivors get everything, the late one everything from its subscription on.
+fn two_stoppers_body(live_behind: bool, three: bool) -> vsched::Body {
+    Arc::new(move || {
+        Box::pin(async move {
+            let port: Arc<OutputPort<u32>> = Arc::new(OutputPort::default());
+            let global: Arc<Mutex<Vec<(u8, u32)>>> = Arc::new(Mutex::new(vec![]));
+            let mk = |id: u8, stop_after: Option<usize>| {
+                let log: L = Arc::new(Mutex::new(vec![]));
+                let l2 = log.clone();
+                let global = global.clone();
+                async move {
+                    let (r, h) = Actor::spawn(None, Sink { global, id, log: l2, stop_after, slow_ms: 0 }, ()).await.expect("sink");
+                    (r, h, log)
+                }
+            };
+            let (a, ha, la) = mk(1, None).await;
+            let (x, hx, lx) = mk(2, Some(1)).await;
+            let (y, hy, ly) = mk(3, Some(1)).await;
+            let (z, hz, lz) = mk(6, Some(1)).await;
+            let (b, hb, lb) = mk(4, None).await;
+            let (d, hd, ld) = mk(5, None).await;
+            port.subscribe(a.clone(), Some);
+            port.subscribe(x.clone(), Some);
+            port.subscribe(y.clone(), Some);
+            if three {
+                port.subscribe(z.clone(), Some);
+            }
+            if live_behind {
+                port.subscribe(b.clone(), Some);
+            }
+            vsched::explore_schedules(true);
+            port.send(0);
+            vsched::quiesce_time();
+            let _ = hx.await;
+            let _ = hy.await;
+            let mut hz = Some(hz);
+            if three {
+                let _ = hz.take().unwrap().await;
+            }
+            port.send(1);
+            port.send(2);
+            vsched::quiesce_time();
+            port.subscribe(d.clone(), Some);
+            port.send(3);
+            port.send(4);
+            vsched::quiesce_time();
+            vsched::explore_schedules(false);
+            let mut bad = Vec::new();
+            let get = |l: &L| l.lock().unwrap().clone();
+            if get(&la) != vec![0, 1, 2, 3, 4] {
+                bad.push(format!("the subscriber in front of the two that stopped received {:?}, expected [0, 1, 2, 3, 4]", get(&la)));
+            }
+            if live_behind && get(&lb) != vec![0, 1, 2, 3, 4] {
+                bad.push(format!("the subscriber behind the two that stopped received {:?}, expected [0, 1, 2, 3, 4]", get(&lb)));
+            }
+            if get(&ld) != vec![3, 4] {
+                bad.push(format!("the late subscriber received {:?}, expected [3, 4]", get(&ld)));
+            }
+            for (n, l) in [("first", &lx), ("second", &ly)] {
+                if get(l) != vec![0] {
+                    bad.push(format!("the {n} stopping subscriber received {:?}, expected [0]", get(l)));
+                }
+            }
+            let _ = lz;
+            let key = format!("a={:?} b={:?} d={:?}", get(&la), get(&lb), get(&ld));
+            for r in [&a, &b, &d, &z] {
+                r.stop(None);
+            }
+            for h in [ha, hb, hd] {
+                let _ = h.await;
+            }
+            if let Some(h) = hz {
+                let _ = h.await;
+            }
+            drop(port);
+            vsched::quiesce();
+            Outcome { key, violations: bad }
+        })
+    })
+}
+
 pub fn plan(tier: &str) -> Plan {
     let thorough = tier == "thorough";
     let cfg = ExecCfg::default();
@@ -356,6 +439,15 @@ pub fn plan(tier: &str) -> Plan {
             let b: vsched::Body = if V2 { body(sc, true) } else { Arc::new(|| Box::pin(async { Outcome { key: "wrong build".into(), violations: vec!["MACHINERY: unit scheduled on the wrong build".into()] } })) };
             let mut u = Unit::explore_split(Job::new(format!("v2/stop-mid-batch/n{n}-stop{stop_after}"), fine.clone(), Some(bound), b), 4);
             u.exe_suffix = Some("-v2");
+            units.push(u);
+        }
+    }
+    // two (three) subscribers found stopped in one pass
+    for build_v2 in [false, true] {
+        for (live_behind, three) in [(true, false), (false, false), (true, true)] {
+            let b: vsched::Body = if build_v2 == V2 { two_stoppers_body(live_behind, three) } else { Arc::new(|| Box::pin(async { Outcome { key: "wrong build".into(), violations: vec!["MACHINERY: unit scheduled on the wrong build".into()] } })) };
+            let mut u = Unit::explore(Job::new(format!("{}/{}-stop-together/{}", if build_v2 { "v2" } else { "v1" }, if three { "three" } else { "two" }, if live_behind { "live-subscriber-behind" } else { "they-are-last" }), cfg.clone(), Some(bound.min(2)), b));
+            u.exe_suffix = if build_v2 { Some("-v2") } else { None };
             units.push(u);
         }
     }
